@@ -47,6 +47,12 @@ func getBase(options multiTag, base int) (int, error) {
 	if sbase != "" {
 		ivbase, err = strconv.ParseInt(sbase, 10, 32)
 		base = int(ivbase)
+
+		// strconv panics when asked to format with a base outside 2..36
+		// (0 lets the prefix of the text decide when parsing)
+		if err == nil && base != 0 && (base < 2 || base > 36) {
+			err = fmt.Errorf("invalid base %d", base)
+		}
 	}
 
 	return base, err
@@ -97,12 +103,20 @@ func convertToString(val reflect.Value, options multiTag) (string, error) {
 			return "", err
 		}
 
+		if base == 0 {
+			base = 10
+		}
+
 		return strconv.FormatInt(val.Int(), base), nil
 	case reflect.Uint, reflect.Uint8, reflect.Uint16, reflect.Uint32, reflect.Uint64:
 		base, err := getBase(options, 10)
 
 		if err != nil {
 			return "", err
+		}
+
+		if base == 0 {
+			base = 10
 		}
 
 		return strconv.FormatUint(val.Uint(), base), nil
